@@ -204,6 +204,11 @@ def _learner(kind, r):
 
 def _evaluator(kind, r):
     if kind == "seq":
+        if r.get("rej"):
+            # phase 6: the built-in RejectionCB (ope=None), dyadic cpct / cmax / cinit so that the float arithmetic is exact
+            from coba.evaluators import RejectionCB
+            fr = lambda x: None if x is None else x[0] // x[1] if x[0] % x[1] == 0 else x[0] / x[1]      # whole numbers as int (the Result shows 1, not 1.0)
+            return RejectionCB(record=list(r["record"]), cpct=fr(r["cpct"]), cmax=fr(r["cmax"]), cinit=fr(r.get("cinit")), seed=r.get("seed"))
         from coba.evaluators import SequentialCB
         return SequentialCB(record=list(r["record"]), learn=r["learn"], eval=r["eval"], seed=r.get("seed"))
     if kind == "toy":
@@ -608,11 +613,26 @@ def run_opts(run):
     return o or None
 
 
+TIMEOUT_REAL = 300      # seconds for a run that really spawns worker processes (a loaded machine starts them slowly)
+TIMEOUT_OTHER = 120     # in-process / simulator runs
+RETRIED = []            # labels of runs of the current case that timed out once and were repeated (-> tags `real:timeout-retried`)
+
+
 def run_iso(case, cfg, how="inproc", sched=0, pre=None, resume=None, opts=None):
+    """one experiment run in a forked child.  A run that does not finish in time (slow / loaded machine: really spawned
+    workers start slowly) is repeated ONCE before anything is reported; only a repeated timeout reaches the caller (kind `T`,
+    infrastructure).  A retry is never silent: it is recorded in RETRIED and shows up in the tag histogram."""
     slow = how == "real" or (pre or {}).get("how") == "real"
-    if resume:
-        return isolated(resumed_run, case, cfg, how, sched, resume, timeout=60 if slow else 25)
-    return isolated(run_once, case, cfg, how, sched, pre=pre, opts=opts, timeout=60 if slow else 25)
+    timeout = TIMEOUT_REAL if slow else TIMEOUT_OTHER
+    for attempt in (0, 1):
+        try:
+            if resume:
+                return isolated(resumed_run, case, cfg, how, sched, resume, timeout=timeout)
+            return isolated(run_once, case, cfg, how, sched, pre=pre, opts=opts, timeout=timeout)
+        except RunTimeout:
+            if attempt == 1:
+                raise
+            RETRIED.append("real:timeout-retried" if slow else "run:timeout-retried")
 
 
 def markers(log_lines):
@@ -672,7 +692,9 @@ def observe_seq(case):
                          "kind": "pmf" if r["fmt"] == "pmf" else "info" if r.get("info") else "rowlen2" if r["fmt"] == "AP" else "plain"})
         for v, r in zip(b.vals, case["vals"]):
             vals.append({"params": json.dumps(_plain(dict(SafeEvaluator(copy.deepcopy(v)).params)), sort_keys=True), "seed": r.get("seed"),
-                         "cfg": {"learn": r["learn"], "eval": r["eval"], "record": list(r["record"])}})
+                         "cfg": {"learn": r["learn"], "eval": r["eval"], "record": list(r["record"])},
+                         # phase 6: a RejectionCB object (Model/C01 `RejConfig`, evaluated by `rejEvaluate` over the C05 stream)
+                         "rej": {"record": list(r["record"]), "cpct": r["cpct"], "cmax": r["cmax"], "cinit": r.get("cinit")} if r.get("rej") else None})
         return {"seq": True, "envs": envs, "lrns": lrns, "vals": vals, "triples": [list(t) for t in b.triples]}
     finally:
         _ctx_set(saved)
@@ -708,7 +730,7 @@ def compare_seq(driver, case, obs, run, o, label=""):
         fails.append(F("C", "model: run (seqComps) %s differs from resultS" % (run["cfg"],), "C:run_eq_spec_sequentialCB"))
     nexc = len([l for l in o["log"] if "Exception" in l or "Error" in l or "TOYFAIL" in l or "Traceback" in l])
     n_markers = len(markers(o["log"]))
-    n_rej = sum(bool(re.search(r"SequentialCB\(.*\) requires ", l)) for l in o["log"])
+    n_rej = sum(bool(re.search(r"SequentialCB\(.*\) requires ", l)) or "ExplorationEvaluator " in l for l in o["log"])
     if n_markers + n_rej != len(ans["log"]):
         fails.append(F("A", "%s: %d failing reads + %d rejected environments in the log, the model expects %d failing tasks %s" % (
             where, n_markers, n_rej, len(ans["log"]), ans["log"]), "A:seq:log"))
@@ -788,6 +810,7 @@ def gen_seq(rng, tier, real_p=0.02):
     if rng.chance(0.3):
         case["rerun"] = True
     seq_extend(case, Rng(runs[-1]["sched"], "seqx", len(envs), len(lrns)))
+    seq_extend6(case, Rng(runs[-1]["sched"], "seqr", len(envs), len(lrns)))
     return tame_real_runs(case)
 
 
@@ -838,6 +861,85 @@ def seq_extend(case, xr):
     else:
         case["triples"] = [[xr.below(total), t[1], t[2]] for t in case["triples"]]
     return case
+
+
+REJ_RECORDS = [["reward"], ["reward", "probability"], ["context", "actions", "action", "reward", "probability"], ["action"], [],
+               ["probability", "context"], ["reward", "action"]]
+
+
+def seq_extend6(case, xr):
+    """phase 6 (own derived PRNG, the earlier recipe streams are unchanged): in 40 % of the seq cases evaluator objects
+    become built-in RejectionCB objects (dyadic cpct 0 / 1/4 / 1/2 / 1, cmax 1 / 1/2 / 2, cinit None / 0 / 1/2 / 1/4, own seed or
+    the experiment seed), most environments become logged ones (propensities 1, 1/2, 1/4, 1/8), learners mostly get `score`
+    with scores 0, 1/8, 1/4, 1/2, 1 (0: the ratio is not inserted into Q) and write no learning_info.  Every number is dyadic, so
+    the float arithmetic of the code is exact and the model's rationals predict accept / reject of every interaction."""
+    if not xr.chance(0.5):
+        return case
+    def q(a, b):
+        return {"f": [a, b]}
+    for v in case["vals"]:
+        if xr.chance(0.7):
+            v.update(rej=True, record=list(xr.choice(REJ_RECORDS)), cpct=xr.choice([[0, 1], [1, 4], [1, 2], [1, 1], [1, 2]]),
+                     cmax=xr.choice([[1, 1], [1, 1], [1, 2], [2, 1]]), cinit=xr.choice([None, None, None, [0, 1], [1, 2], [1, 4], [1, 1]]),
+                     learn="on", eval="on")
+    if not any(v.get("rej") for v in case["vals"]):
+        return case
+    for L in case["lrns"]:
+        L.pop("info", None)
+        if xr.chance(0.9):
+            L["has_score"] = True
+        for e in L["script"]:
+            e["s"] = xr.choice([[1, 2], [1, 4], [1, 1], [1, 8], [0, 1], [1, 2], [1, 1]])
+    for r in case["envs"]:
+        if xr.chance(0.85):
+            if xr.chance(0.75) and not r.get("heads"):
+                r["inters"] = (r["inters"] * 16)[:xr.choice([8, 12, 16])] if r["inters"] else r["inters"]
+            out = []
+            for i, pairs in enumerate(r["inters"]):
+                d = dict((k, v_) for k, v_ in pairs)
+                acts = d["actions"]["l"]
+                if "action" not in d:
+                    pairs = pairs + [["action", acts[xr.below(len(acts))]], ["reward", q(xr.below(5), 4)], ["probability", q(1, xr.choice([1, 2, 2, 4, 4, 8]))]]
+                out.append(pairs)
+            r["inters"] = out
+    return case
+
+
+def seq_directed_cases6():
+    """phase 6 corpus: RejectionCB objects inside the model-predicted experiment: (1) one RejectionCB shared by two logged sources
+    and two learners (one shared in place inside a chunk), data-adaptive start value, own seed vs experiment seed, a learner
+    without score (rejected), an un-logged source (rejected), a score of 0; (2) a source of 103 interactions whose smallest
+    propensity comes after the first 100 (only the peeked 100 enter the start value), cpct 1/2 (interpolating percentile)"""
+    def q(a, b):
+        return {"f": [a, b]}
+    def log(n, na, pr):
+        acts = ["a", "b", "c", "d"][:na]
+        return [[["context", i], ["actions", {"l": acts}], ["rewards", {"l": [q((i + j) % 5, 4) for j in range(na)]}],
+                 ["action", acts[(i * 7 + 1) % na]], ["reward", q((3 * i) % 5, 4)], ["probability", q(1, pr(i))]] for i in range(n)]
+    sim = [[["context", i], ["actions", {"l": ["a", "b"]}], ["rewards", {"l": [q(1, 2), q(1, 4)]}]] for i in range(3)]
+    envs = [{"tag": 0, "inters": log(9, 2, lambda i: [2, 4, 2, 1][i % 4]), "batch": None, "fail": False, "pipe": "chunk"},
+            {"tag": 1, "inters": log(7, 3, lambda i: [4, 2][i % 2]), "batch": None, "fail": False},
+            {"tag": 2, "inters": sim, "batch": None, "fail": False},
+            {"tag": 3, "inters": log(4, 2, lambda i: 2), "batch": 2, "fail": False}]
+    sc = lambda *ss: [{"idx": k, "free": None, "p": [1, 2], "kw": {}, "s": list(s_)} for k, s_ in enumerate(ss)]
+    lrns = [{"script": sc([1, 2], [1, 4], [1, 1], [0, 1], [1, 2]), "fmt": "AP", "has_score": True},
+            {"script": sc([1, 4], [1, 1], [1, 2]), "fmt": "dAP", "has_score": True},
+            {"script": sc([1, 2]), "fmt": "AP", "has_score": False}]
+    vals = [{"rej": True, "record": ["reward", "probability", "action"], "cpct": [1, 4], "cmax": [1, 1], "cinit": None, "seed": None, "learn": "on", "eval": "on"},
+            {"rej": True, "record": ["context", "reward"], "cpct": [0, 1], "cmax": [1, 2], "cinit": [1, 2], "seed": 3, "learn": "on", "eval": "on"},
+            {"record": ["reward", "action", "probability"], "learn": "on", "eval": "on", "seed": None}]
+    runs = [{"cfg": [1, 0, 0], "how": "inproc", "sched": 0}, {"cfg": [2, 1, 2], "how": "sim", "sched": 5}, {"cfg": [1, 0, 3], "how": "inproc", "sched": 0},
+            {"cfg": [2, 0, 0], "how": "real", "sched": 0}]
+    c1 = {"kind": "seq", "seed": 7, "envs": envs, "lrns": lrns, "vals": vals, "mode": "product", "pe": [0, 1, 2, 3], "pl": [0, 1, 2], "pv": [0, 1, 2],
+          "runs": runs, "rerun": True}
+    big = log(103, 2, lambda i: 8 if i >= 100 else [2, 4][i % 2])
+    c2 = {"kind": "seq", "seed": 2, "envs": [{"tag": 0, "inters": big, "batch": None, "fail": False}, {"tag": 1, "inters": big[:100], "batch": None, "fail": False, "pipe": "cache"}],
+          "lrns": lrns[:2],
+          "vals": [{"rej": True, "record": ["reward", "probability"], "cpct": [1, 2], "cmax": [1, 1], "cinit": None, "seed": None, "learn": "on", "eval": "on"},
+                   {"rej": True, "record": ["reward"], "cpct": [1, 1], "cmax": [2, 1], "cinit": [0, 1], "seed": 5, "learn": "on", "eval": "on"}],
+          "mode": "tuples", "triples": [[0, 0, 0], [1, 0, 0], [0, 1, 1], [1, 1, 0], [0, 0, 1]],
+          "runs": runs[:3]}
+    return [c1, c2]
 
 
 def seq_directed_cases5():
@@ -1768,13 +1870,70 @@ def write_generated_seeds(repo):
     return notes + ["C01Seeds: seqSeed := %s; rejLearnerSeed := %s; rejRngSeed := %s; extracted=%s" % (d["seqSeed"], d["rejLearnerSeed"], d["rejRngSeed"], extracted)]
 
 
+def extract_rej_consts(repo):
+    """phase 6 translator: read off `RejectionCB.evaluate` (coba/evaluators/sequential.py, Python `ast`) (1) the key list of the
+    `all(k in first.keys() for k in [...])` validation, (2) the `n=` of `peek_first(interactions, n=…)`, (3) the comparison operator
+    of the accept test `rng.random() <op> c*(on_prob/log_prob)`, (4) the operator of the `if on_prob != 0` guard of the insort"""
+    import ast
+    out, notes = {}, []
+    try:
+        tree = ast.parse(open(os.path.join(repo, "coba", "evaluators", "sequential.py"), encoding="utf-8").read())
+        cls = next(n for n in tree.body if isinstance(n, ast.ClassDef) and n.name == "RejectionCB")
+        fn = next(n for n in cls.body if isinstance(n, ast.FunctionDef) and n.name == "evaluate")
+        ops = {ast.LtE: "<=", ast.Lt: "<", ast.GtE: ">=", ast.Gt: ">", ast.Eq: "==", ast.NotEq: "!="}
+        for n in ast.walk(fn):
+            if isinstance(n, ast.Call) and isinstance(n.func, ast.Name) and n.func.id == "all" and n.args and isinstance(n.args[0], ast.GeneratorExp):
+                it = n.args[0].generators[0].iter
+                if isinstance(it, (ast.List, ast.Tuple)) and all(isinstance(e, ast.Constant) and isinstance(e.value, str) for e in it.elts):
+                    out["keys"] = [e.value for e in it.elts]
+            if isinstance(n, ast.Call) and isinstance(n.func, ast.Name) and n.func.id == "peek_first":
+                for kw in n.keywords:
+                    if kw.arg == "n" and isinstance(kw.value, ast.Constant) and isinstance(kw.value.value, int):
+                        out["peek"] = kw.value.value
+                if len(n.args) > 1 and isinstance(n.args[1], ast.Constant) and isinstance(n.args[1].value, int):
+                    out["peek"] = n.args[1].value
+            if isinstance(n, ast.If) and isinstance(n.test, ast.Compare) and len(n.test.ops) == 1:
+                left, right = n.test.left, n.test.comparators[0]
+                if isinstance(left, ast.Call) and isinstance(left.func, ast.Attribute) and left.func.attr == "random" and type(n.test.ops[0]) in ops:
+                    out["accept"] = ops[type(n.test.ops[0])]
+                if isinstance(left, ast.Name) and left.id == "on_prob" and isinstance(right, ast.Constant) and right.value == 0 and type(n.test.ops[0]) in ops:
+                    out["guard"] = ops[type(n.test.ops[0])]
+    except Exception as e:           # the source was reshaped beyond what the extractor reads: no alarm, the model's own constants are emitted
+        notes.append("C01Rej: extraction failed (%s: %s)" % (type(e).__name__, e))
+    return out, notes
+
+
+def write_generated_rej(repo):
+    from core import lean
+    d, notes = extract_rej_consts(repo)
+    fallback = {"keys": ["context", "action", "reward", "actions", "probability"], "peek": 100, "accept": "<=", "guard": "!="}
+    extracted = all(k in d for k in fallback)
+    if not extracted:
+        d = fallback
+    body = ("-- GENERATED by harness/props/c01.py from RejectionCB.evaluate (coba/evaluators/sequential.py) on every run (Python `ast`); do not edit.\n"
+            "-- Props/C01.lean proves that the model's `rejKeys` / `rejPeek` and the comparisons of `rejLoop` are these.\n"
+            "namespace Coba.Generated.C01\n"
+            "/-- the keys `RejectionCB.evaluate` demands of the first interaction -/\ndef rejKeysSrc : List String := [%s]\n"
+            "/-- `n` of `peek_first(interactions, n=…)` -/\ndef rejPeekSrc : Nat := %d\n"
+            "/-- operator of the accept test `rng.random() <op> c*(on_prob/log_prob)` -/\ndef rejAcceptOp : String := \"%s\"\n"
+            "/-- operator of the guard `if on_prob <op> 0: insort(Q, log_prob/on_prob)` -/\ndef rejGuardOp : String := \"%s\"\n"
+            "def rejExtracted : Bool := %s\nend Coba.Generated.C01\n" % (", ".join('"%s"' % k for k in d["keys"]), d["peek"], d["accept"], d["guard"], "true" if extracted else "false"))
+    path = os.path.join(lean.LEAN_DIR, "CobaVerif", "Generated", "C01Rej.lean")
+    old = open(path, encoding="utf-8").read() if os.path.exists(path) else None
+    if old != body:
+        os.makedirs(os.path.dirname(path), exist_ok=True)
+        with open(path, "w", encoding="utf-8") as f:
+            f.write(body)
+    return notes + ["C01Rej: keys=%s peek=%s accept=%s guard=%s extracted=%s" % (d["keys"], d["peek"], d["accept"], d["guard"], extracted)]
+
+
 class C01(Property):
     id = "C01"
     prop_modules = ["CobaVerif.Props.C01"]
     quick_n = 400
     thorough_n = 12000
     search_n = 500
-    case_timeout = 120
+    case_timeout = 900       # engine alarm per case; the runs have their own timeouts (TIMEOUT_REAL / TIMEOUT_OTHER, one retry)
     workers = 8
     rule = ("an experiment recipe (1-3 toy or built-in environment pipelines incl. shared chunk()/cache() prefixes, shuffle(n=k) fan-out, "
             "raising variants; 1-3 learners; 1-3 evaluators; cross product or explicit tuple list with shared/duplicated objects) and 2-4 "
@@ -1785,7 +1944,8 @@ class C01(Property):
             "resumed runs (result file, part of the record lines kept, second run) compared with runResumed / runResumedPFrom of the model; 10 % of the cases are of "
             "the seq kind (in-memory environments x scripted learners x built-in SequentialCB objects; the whole Result is predicted by run (seqCompsX w); since phase 5 65 % of them with PMF-answering learners drawn by CobaRandom(evaluator seed or experiment seed), "
             "learning_info writers, own evaluator seeds, chunk()/chunk(cache=False)/cache() pipelines with Head(k) fan-out behind a shared prefix, and half of those "
-            "with Batch(1-3) sources incl. SafeLearner's orientation probe); every run "
+            "with Batch(1-3) sources incl. SafeLearner's orientation probe; since phase 6 half of the seq cases turn 70 % of their evaluator objects into built-in RejectionCB "
+            "objects (dyadic cpct/cmax/cinit, logged sources with propensities 1..1/8, scores 0..1) whose rows are predicted by rejEvaluate over the C05 stream); every run "
             "draws quiet=True (30 %) and the caller's logger kind (20 % IndentLogger); non-trivial = at least two configurations compared and at least one "
             "interaction row recorded")
     trusted_base = [
@@ -1805,10 +1965,11 @@ class C01(Property):
 
     def pre_build(self):
         # translator tie: regenerate lean/CobaVerif/Generated/C01Config.lean from the CURRENT source of the repo under test
-        return write_generated_config(os.environ.get("COBA_REPO", "/repo")) + write_generated_seeds(os.environ.get("COBA_REPO", "/repo"))
+        repo = os.environ.get("COBA_REPO", "/repo")
+        return write_generated_config(repo) + write_generated_seeds(repo) + write_generated_rej(repo)
 
     def generate(self, rng, tier):
-        real_p = 0.022 if tier == "quick" else 0.006
+        real_p = 0.015 if tier == "quick" else 0.006
         if rng.chance(0.72):
             if rng.chance(0.14):
                 return add_run_opts(rng, gen_seq(rng, tier, real_p))       # phase 4: built-in SequentialCB, model-predicted
@@ -1816,6 +1977,11 @@ class C01(Property):
         return add_run_opts(rng, gen_builtin(rng, tier, real_p))
 
     def search(self, rng, tier):
+        if rng.chance(0.25):
+            # phase 6: the failing-input search also draws the seq kind (built-in SequentialCB / RejectionCB objects, scripted
+            # learners whose predict is stateful, PMF draws, batched sources), a few of them on really spawned workers
+            # (class-level memo defects are invisible to the simulator, which shares class objects with the caller)
+            return add_run_opts(rng, gen_seq(rng, tier, 0.06))
         if rng.chance(0.8):
             return add_run_opts(rng, gen_toy(rng, tier, 0.0, fail_bias=2.0, share_bias=2.0))
         return add_run_opts(rng, gen_builtin(rng, tier, 0.0))
@@ -1844,6 +2010,7 @@ class C01(Property):
         cs += directed_cases()
         cs += seq_directed_cases()
         cs += seq_directed_cases5()
+        cs += seq_directed_cases6()      # phase 6: RejectionCB inside the model-predicted experiment
         # built-in components
         cs.append({"kind": "builtin", "seed": 1, "envs": [{"src": "linear", "n": 12, "na": 3, "seed": 2, "prefix": [["chunk"]], "branches": [[["shuffle", 2]]]}],
                    "lrns": [{"type": "eps", "eps": 0.1, "seed": 1}, {"type": "pmf", "tag": 1}, {"type": "kwargs", "tag": 2}],
@@ -1864,6 +2031,7 @@ class C01(Property):
         tags += feature_tags(case)
         runs = case["runs"][:MAX_RUNS]
         outs = []
+        del RETRIED[:]
         t_end = time.time() + CASE_BUDGET
         for k, run in enumerate(runs):
             if k > 0 and time.time() > t_end:
@@ -1972,8 +2140,22 @@ class C01(Property):
             tags += ["seq:orientation-probe"] * any(r.get("batch") and min(r["batch"], len(r["inters"])) == 2 for r in case["envs"]) * any(l["fmt"] == "AP" for l in case["lrns"])
             tags += ["seq:batched-env"] * any(r.get("batch") for r in case["envs"]) + ["seq:failing-read"] * any(r.get("fail") for r in case["envs"])
             tags += ["seq:rejected"] * any(") requires " in l for l in outs[0]["log"])
+            if any(r.get("rej") for r in case["vals"]):
+                tags.append("seq:rejectionCB")
+                vorder = []
+                for t in outs[0]["triples"]:
+                    if t[2] not in vorder:
+                        vorder.append(t[2])         # evaluator ids are assigned by first appearance
+                rej_ids = {vorder.index(i) for i, r in enumerate(case["vals"]) if r.get("rej") and i in vorder}
+                nrej_rows = sum(1 for x in outs[0]["seq_ints"] if x[2] in rej_ids)
+                tags.append("seq:rejectionCB:rows=%s" % ("0" if nrej_rows == 0 else "1-5" if nrej_rows <= 5 else ">5"))
+                tags += ["seq:rejectionCB:refused"] * any("ExplorationEvaluator " in l for l in outs[0]["log"])
+                tags += ["seq:rejectionCB:cinit"] * any(r.get("rej") and r.get("cinit") and r["cinit"][0] for r in case["vals"])
+                tags += ["seq:rejectionCB:cpct=%d/%d" % tuple(r["cpct"]) for r in case["vals"] if r.get("rej")]
+                tags += ["seq:rejectionCB:score-0"] * any(e["s"][0] == 0 for l in case["lrns"] for e in l["script"])
             if len(set(map(tuple, outs[0]["triples"]))) < len(outs[0]["triples"]) or len({t[1] for t in outs[0]["triples"]}) < len(outs[0]["triples"]):
                 tags.append("seq:shared-learner")
+        tags += RETRIED          # `real:timeout-retried` / `run:timeout-retried`: a run timed out once and was repeated
         return {"fails": fails, "nontrivial": len(runs) >= 2 and nrows > 0, "tags": tags,
                 "impl": {"base": base if len(json.dumps(base)) < 4000 else "(large)", "rows": nrows}, "model": model}
 
